@@ -15,15 +15,18 @@
 (* attached to the events; the contract never sees raw data.                  *)
 EXTENDS Naturals, Sequences
 
-VARIABLES f, phase, delivered, allok, matches, eos
-rvars == <<f, phase, delivered, allok, matches, eos>>
+VARIABLES f, phase, delivered, allok, matches, eos, closed, base
+rvars == <<f, phase, delivered, allok, matches, eos, closed, base>>
 
 NoFile == [valid |-> FALSE, total |-> 0, unit |-> FALSE, cok |-> <<>>, dataok |-> FALSE, detached |-> FALSE]
+NoBase == [delivered |-> 0, ok |-> FALSE, matches |-> FALSE]
 RInit == f = NoFile /\ phase = "closed" /\ delivered = 0 /\ allok = TRUE /\ matches = TRUE /\ eos = FALSE
+         /\ closed = 0 /\ base = NoBase
 
 ROpen(ff, ret) ==
     /\ f' = ff /\ phase' = IF ret = 1 THEN "open" ELSE "failed"
     /\ delivered' = 0 /\ allok' = (ret = 1) /\ matches' = TRUE /\ eos' = FALSE
+    /\ closed' = 0 /\ UNCHANGED base
 
 \* ret bytes were returned; eq = they equal the reference content at [delivered, delivered+ret);
 \* bad = some byte of them belongs to a chunk whose stored bytes do not match its checksum
@@ -36,14 +39,14 @@ RRead(n, ret, eq, bad) ==
     /\ matches' = (matches /\ (ret > 0 => eq))
     /\ allok' = (allok /\ ret >= 0)
     /\ eos' = (eos \/ ret = 0)
-    /\ UNCHANGED <<f, phase>>
+    /\ UNCHANGED <<f, phase, closed, base>>
 
 \* C02: open, every read to the end of the stream and close all succeeded
 \*      => the file is valid and exactly its content was delivered
 RClose(ret) ==
     /\ phase \in {"open", "failed"}
     /\ (ret = 1 /\ allok /\ eos) => (f.valid /\ matches /\ delivered = f.total)
-    /\ phase' = "closed" /\ UNCHANGED <<f, delivered, allok, matches, eos>>
+    /\ phase' = "closed" /\ closed' = ret /\ UNCHANGED <<f, delivered, allok, matches, eos, base>>
 
 \* the same obligation for a tool that read the whole stream and exited with success
 RToolExit(status, outEq) == (status = 0) => (f.valid /\ outEq)
@@ -59,10 +62,13 @@ RGetChunk(isValidFile, want, ret, eq) ==
 \* (1 valid, -1 failed, 0 untouched), ret = 1 all good / -1 some bad / 0 error
 Expected(i) == IF f.cok[i] THEN 1 ELSE 0 - 1
 AllChunksOk == \A i \in 1..Len(f.cok) : f.cok[i]
-RScan(ret, vec) ==
+\* es = error state of the context before the call: a context left in an error state by an earlier failed
+\* call may refuse (ret = 0); it must still not report a verdict the bytes do not support
+RScan(ret, vec, es) ==
     /\ phase = "open"
     /\ Len(vec) = Len(f.cok)
-    /\ IF f.detached
+    /\ IF es # 0 THEN ret = 1 => (AllChunksOk /\ f.dataok)
+       ELSE IF f.detached
        THEN /\ vec[1] = Expected(1)                                   \* only the dictionary is scanned
             /\ \A i \in 2..Len(vec) : vec[i] = 0
             /\ ret = vec[1]
@@ -74,11 +80,18 @@ RScan(ret, vec) ==
     /\ UNCHANGED rvars
 
 \* whole-data validation alone
-RValidateData(ret) ==
+RValidateData(ret, es) ==
     /\ phase = "open"
     /\ ret = 1 => f.dataok
-    /\ (AllChunksOk /\ f.dataok /\ ~f.detached) => ret = 1
+    /\ (es = 0 /\ AllChunksOk /\ f.dataok /\ ~f.detached) => ret = 1
     /\ UNCHANGED rvars
+
+\* C09: a full read started after any sequence of validations returns the same content and verdict as a
+\* read without them.  "setbaseline" remembers the outcome of the execution that just ended (the one
+\* without validations); "samebaseline" compares the outcome of the current one with it.
+Outcome == [delivered |-> delivered, ok |-> (allok /\ closed = 1), matches |-> matches]
+RSetBaseline == base' = Outcome /\ UNCHANGED <<f, phase, delivered, allok, matches, eos, closed>>
+RSameAsBaseline == Outcome = base /\ UNCHANGED rvars
 
 \* C09: validations never modify the file
 RUnmodified(same) == same /\ UNCHANGED rvars
